@@ -91,6 +91,14 @@ def scorer_cases(draw, tier):
     case = {"scorer": name, "cuts": cuts, "t": draw(transformation(p, kinds)),
             # the transformed data may be a *view* of the same buffer, and the same scorer object may be refitted on it
             "same_object_view": draw(st.sampled_from([False, False, True]))}
+    # whole-numbered readings on a level far above their spread (ADC counts 30000 +- 2), the original handed over as integers
+    level = draw(st.sampled_from([None, None, None, None, None, 30000.0, 1e6, 0.0]))
+    int_dtype = draw(st.sampled_from(["int64", "int32", "int16"]))
+    if level is not None and "Gaussian" not in name and case["t"]["kind"] in ("shift", "scale"):
+        X, _ = draw(D.structured_matrix(n, p, exact=True, max_shifts=2, max_spikes=1, max_bumps=1))
+        case["X"] = [[max(-40.0, min(40.0, v)) + level for v in row] for row in X]
+        case["int_original"] = int_dtype if level <= 30000 or int_dtype != "int16" else "int32"
+        return case
     case["X"], _ = draw(D.structured_matrix(n, p, exact=False, min_noise_scale=1e-2))  # bulk data last (strategies/data.py)
     return case
 
@@ -157,6 +165,31 @@ def check_scorer(case):
     tol = scorer_tolerance(name, X, Xt, case["cuts"], cuts_t.tolist(), n)
     if tol is None:
         return {"nontrivial": False, "classes": classes + ["near_degenerate_skipped"]}
+    def evaluated(fn):
+        """('value', array) or ('not_pd', None): the documented error for a covariance that is not positive definite."""
+        try:
+            with sut(f"{name} fit/evaluate", allowed=(RuntimeError,)):
+                return "value", fn()
+        except RuntimeError as e:
+            if "positive definite" in str(e):
+                return "not_pd", None
+            raise
+
+    if not (case.get("same_object_view") and t["kind"] in ("reverse", "permute")):
+        # every claimed relation maps a positive definite sample covariance to a positive definite one, and the
+        # near-degenerate cases have been skipped above: the two runs must both score or both raise
+        Xo = X.astype(np.dtype(case["int_original"])) if case.get("int_original") else X
+        ra = evaluated(lambda: np.asarray(K.build(spec).fit(Xo).evaluate(cuts), dtype=float))
+        rb = evaluated(lambda: np.asarray(K.build(spec).fit(Xt).evaluate(cuts_t), dtype=float))
+        if ra[0] != rb[0]:
+            raise Violation(f"the {t['kind']}-transformed data are scored although the original raises the not-positive-definite error, "
+                            "or the other way round", scorer=name, transformation=t, original=ra[0], transformed=rb[0])
+        if ra[0] == "not_pd":
+            return {"nontrivial": False, "classes": classes + ["not_pd_error"]}
+        for which, r in (("original", ra[1]), ("transformed", rb[1])):
+            if not np.all(np.isfinite(r)):
+                raise Violation(f"scorer returned a non-finite value on the {which} data", scorer=name, transformation=t,
+                                values=np.asarray(r).tolist()[:4])
     try:
         with sut(f"{name} on X and on transformed X", allowed=(RuntimeError,)):
             if case.get("same_object_view") and t["kind"] in ("reverse", "permute"):
@@ -166,8 +199,7 @@ def check_scorer(case):
                 b = np.asarray(sc.fit(view).evaluate(cuts_t))
                 classes.append("same_scorer_refitted_on_a_view")
             else:
-                a = np.asarray(K.build(spec).fit(X).evaluate(cuts))
-                b = np.asarray(K.build(spec).fit(Xt).evaluate(cuts_t))
+                a, b = ra[1], rb[1]
     except RuntimeError as e:
         if "positive definite" in str(e):
             return {"nontrivial": False, "classes": classes + ["not_pd_error"]}
@@ -179,7 +211,33 @@ def check_scorer(case):
     if want.shape != b.shape or np.any(np.abs(b - want) > tol + 1e-9 * (1 + np.abs(want))):
         raise Violation(f"scorer output does not respect the {t['kind']} symmetry", scorer=name, transformation=t,
                         original=want.tolist(), transformed=b.tolist(), tolerance=float(tol))
+    if case.get("int_original"):
+        classes.append("integer_typed_original")
     return {"nontrivial": not is_identity(t, p), "classes": classes}
+
+
+# ------------------------------------------------------------------ wide data
+
+
+def wide_cells(tier):
+    """Covariance change scores on 40..100 columns (thorough: 160): |log det| of several hundreds although every covariance
+    is well-conditioned; the scale relation over factors 1e-3 .. 1e3. Data seeded (numpy PCG64, seed stored)."""
+    i = 0
+    for p_ in (40, 60, 100) if tier == "quick" else (40, 60, 100, 160):
+        for factor in (1e-3, 1e3, 0.01, 50.0):
+            i += 1
+            yield {"p": p_, "factor": factor, "seed": 12000 + i}
+
+
+def check_wide(case):
+    p_, n = case["p"], 6 * case["p"]
+    rng = np.random.Generator(np.random.PCG64(case["seed"]))
+    X = rng.standard_normal((n, p_)) * rng.uniform(0.5, 2.0, size=p_)
+    X[3 * p_:] += 0.3
+    info = check_scorer({"scorer": "ChangeScore(GaussianCovCost)", "X": X, "cuts": [[0, 3 * p_, n], [0, 2 * p_ + 7, n - 3]],
+                         "t": {"kind": "scale", "scale": case["factor"]}, "same_object_view": False})
+    info["classes"] = list(info["classes"]) + [f"p={p_}", f"factor={case['factor']:g}"]
+    return info
 
 
 # ------------------------------------------------------------------ detectors
@@ -456,8 +514,13 @@ FACETS = [
     Facet(name="scorers", check=check_scorer, strategy=scorer_cases,
           rule=("12 scorer configurations x {column permutation, per-column shift in [-10,10], positive scale in [0.01,100], time "
                 "reversal} where the property claims the relation; outputs compared within the error model (B computed with M "
-                "including the shift/scale); non-trivial = non-identity transformation"),
+                "including the shift/scale); the original may be whole-numbered readings on a level of 30000 / 10^6 handed over as int64 / int32 / int16 "
+                "while the shifted / scaled copy is float; non-trivial = non-identity transformation"),
           n_quick=1200, n_thorough=15000, shards_quick=8, shards_thorough=16),
     det_facet("PELT", 300, 5000), det_facet("MovingWindow", 300, 5000), det_facet("SeededBinarySegmentation", 300, 5000),
     det_facet("CircularBinarySegmentation", 160, 2500), det_facet("CAPA", 240, 4000), det_facet("MVCAPA", 240, 4000),
+    Facet(name="wide_data", kind="enumerate", enumerate=wide_cells, check=check_wide, exhaustive=True, time_limit=300,
+          rule=("ChangeScore(GaussianCovCost) on seeded data with 40 / 60 / 100 columns (thorough: 160), n = 6p, scale factors 1e-3, 0.01, 50, 1e3: "
+                "scale invariance within the error model; 12 cells (thorough: 16), every cell non-trivial"),
+          shards_quick=6, shards_thorough=8, max_samples=1),
 ]
